@@ -329,3 +329,127 @@ def r_conditional(model, obligation):
     return {"confirmed": res is not want, "detail": f"headers present={has}, tag matches: If-Match={w['if_match.matches']} "
             f"If-None-Match={w['if_none_match.matches']}, mtime/IUS/IMS ranks={[rank[raw[k]] for k in ('mtime', 'ius', 'ims')]}: "
             f"real _make_response -> {res.name}, RFC 9110 13.2.2 -> {want.name}", "input": w}
+
+
+def _req_parser(**kw):
+    import unittest.mock as mock
+
+    from aiohttp.http_parser import HttpRequestParserPy
+
+    return HttpRequestParserPy(mock.Mock(_reading_paused=False), asyncio.new_event_loop(), 65536, **kw)
+
+
+@native("C03.http.feed_data")
+def r_http_feed_data(model, obligation):
+    """the real HttpRequestParserPy, fed what the witness of the refuted obligation describes"""
+    from aiohttp.http_exceptions import HttpProcessingError, LineTooLong
+
+    w = model.get("__witness__") or {}
+    if obligation == "C01.skip.only_empty_lines":
+        # the rope domain knows the skipped bytes only through their end points, so the model's bytes in between are
+        # not meaningful: replay the clause itself on the shortest strays (a lone CR, a lone LF, CR CR LF, LF CR LF)
+        req = b"GET / HTTP/1.1\r\nHost: a\r\n\r\n"
+        hits = []
+        for stray in (b"\r", b"\n", b"\r\r\n", b"\n\r\n"):
+            p = _req_parser()
+            try:
+                msgs, _, _ = p.feed_data(stray + req)
+            except HttpProcessingError:
+                continue
+            if msgs:
+                hits.append(stray)
+        return {"confirmed": bool(hits), "detail": f"request accepted although preceded by {hits!r} (not whole CRLF sequences): "
+                "the stray bytes were dropped" if hits else "every stray CR / LF in front of the start line is refused",
+                "input": [(h + req).hex() for h in hits]}
+    if obligation == "C10.limit.header_count" and "max_headers" in w:
+        m = max(1, min(int(w["max_headers"]), 2000))
+        p = _req_parser(max_headers=m)
+        data = b"GET / HTTP/1.1\r\n" + b"".join(b"X-%d: y\r\n" % i for i in range(m + 5))
+        try:
+            p.feed_data(data)
+        except HttpProcessingError as e:
+            return {"confirmed": False, "detail": f"refused: {e!r}"}
+        return {"confirmed": len(p._lines) > m, "detail": f"max_headers={m}: {len(p._lines)} header lines buffered for an "
+                "unfinished message head without a refusal", "input": {"max_headers": m, "lines_sent": m + 6}}
+    if obligation == "C10.limit.body_parser_inherits_limits":
+        p = _req_parser(max_line_size=8000, max_field_size=9000)
+        p.feed_data(b"POST / HTTP/1.1\r\nHost: a\r\nTransfer-Encoding: chunked\r\n\r\n")
+        pp = p._payload_parser
+        got = (getattr(pp, "_max_line_size", None), getattr(pp, "_max_field_size", None))
+        return {"confirmed": got != (8000, 9000), "detail": f"parser(max_line_size=8000, max_field_size=9000): the chunked "
+                f"body parser works with (max_line_size, max_field_size) = {got}", "input": "POST with Transfer-Encoding: chunked"}
+    if obligation == "C03.limit.partial_line_not_early" and "limit" in w:
+        lim = max(20, min(int(w["limit"]), 8190))
+        first = bool(w.get("first_line", True))
+        if first:
+            line = b"GET /" + b"a" * (lim - len("GET / HTTP/1.1")) + b" HTTP/1.1"
+            whole, cut = [line + b"\r\nHost: a\r\n\r\n"], [line + b"\r", b"\nHost: a\r\n\r\n"]
+            kw = {"max_line_size": lim}
+        else:
+            fld = b"X: " + b"b" * (lim - 3)
+            head = b"GET / HTTP/1.1\r\nHost: a\r\n"
+            whole, cut = [head + fld + b"\r\n\r\n"], [head + fld + b"\r", b"\n\r\n"]
+            kw = {"max_field_size": lim, "max_line_size": 8190}
+
+        def run(chunks):
+            p = _req_parser(**kw)
+            n = 0
+            try:
+                for c in chunks:
+                    n += len(p.feed_data(c)[0])
+                return n
+            except LineTooLong:
+                return "LineTooLong"
+
+        a, b_ = run(whole), run(cut)
+        return {"confirmed": a != b_, "detail": f"{'start line' if first else 'field'} of exactly {lim} bytes: one read -> {a}, "
+                f"cut between CR and LF -> {b_}", "input": {"limit": lim, "first_line": first}}
+    return {"confirmed": False, "detail": "no replayable witness for this obligation"}
+
+
+@native("C03.payload.entry_limits")
+def r_entry_limits(model, obligation):
+    """chunk-size lines and trailer fields around their limit through the real request parser, in one read and cut
+    (in the middle, and between CR and LF), for max_line_size < max_field_size and the reverse; plus an over-long partial
+    line that never ends.  The clauses replayed are the unit's: same verdict however the line is cut, and a partial line
+    over its limit is refused at the next feed."""
+    head = b"POST / HTTP/1.1\r\nHost: a\r\nTransfer-Encoding: chunked\r\n\r\n"
+
+    def run(chunks, **kw):
+        p = _req_parser(**kw)
+        pl = None
+        try:
+            for c in chunks:
+                msgs, _, _ = p.feed_data(c)
+                if msgs:
+                    pl = msgs[0][1]
+        except Exception as e:  # noqa: BLE001
+            return type(e).__name__
+        if pl is not None and pl.exception() is not None:
+            return type(pl.exception()).__name__
+        return "accepted" if pl is not None and pl.is_eof() else "incomplete"
+
+    bad = []
+    for mls, mfs in ((40, 80), (80, 40)):
+        kw = {"max_line_size": mls, "max_field_size": mfs}
+        for kind, lim in (("chunk-size line", mls), ("trailer field", mfs)):
+            for n in (lim, lim + 1):
+                if kind == "chunk-size line":
+                    line = b"5;x=" + b"e" * (n - 4)
+                    pre, post = head, b"\r\nhello\r\n0\r\n\r\n"
+                else:
+                    line = b"X: " + b"t" * (n - 3)
+                    pre, post = head + b"5\r\nhello\r\n0\r\n", b"\r\n\r\n"
+                whole = run([pre + line + post], **kw)
+                for name, chunks in (("mid-line", [pre + line[: n - 3], line[n - 3:] + post]),
+                                     ("between CR and LF", [pre + line + b"\r", post[1:]])):
+                    got = run(chunks, **kw)
+                    if got != whole:
+                        bad.append(f"{kind} of {n} bytes (limit {lim}, limits {mls}/{mfs}): one read -> {whole}, cut {name} -> {got}")
+            # a partial line that is already over its limit must be refused when the next bytes arrive
+            over = (b"5;x=" + b"e" * (lim + 6)) if kind == "chunk-size line" else (b"X: " + b"t" * (lim + 7))
+            pre = head if kind == "chunk-size line" else head + b"5\r\nhello\r\n0\r\n"
+            got = run([pre + over, b"e", b"e"], **kw)
+            if got != "LineTooLong":
+                bad.append(f"partial {kind} of {len(over)} bytes (limit {lim}, limits {mls}/{mfs}) is continued: {got}")
+    return {"confirmed": bool(bad), "detail": "; ".join(bad[:4]) or "all line-limit verdicts independent of the cut", "input": bad}
